@@ -24,7 +24,7 @@ REPO = os.environ.get("VERIF_REPO", "/repo")
 _native = {}
 
 
-def native_class(cls):
+def native_class(cls, allow_own_init=False):
     """the real class object of a repo ClassVal deriving from CStruct (None if it is not one)"""
     if not isinstance(cls, ClassVal) or cls.node is None:
         return None
@@ -40,8 +40,8 @@ def native_class(cls):
         return None
     for k in chain[:-1]:
         a, _ = k.lookup("__init__")
-        if a is not None and getattr(a, "cls", None) is not None and a.cls.name != "CStruct":
-            return None          # augmented with parsing logic of its own: not modelled
+        if a is not None and getattr(a, "cls", None) is not None and a.cls.name != "CStruct" and not allow_own_init:
+            return None          # augmented with parsing logic of its own: its __init__ runs, CStruct.__init__ is a contract
     key = (getattr(cls.module, "name", None) or str(cls.module), cls.name)
     if key not in _native:
         mw = os.path.join(REPO, "middleware")
@@ -52,7 +52,18 @@ def native_class(cls):
             mod = importlib.import_module(modname)
             _native[key] = getattr(mod, cls.name)
         except Exception as e:      # noqa
-            raise Unsupported("cannot import the real class %s.%s: %s" % (modname, cls.name, e))
+            # the module drags in something absent from the sandbox (bitcoin.core): execute only the class definition
+            # itself (its docstring IS the layout) under CPython, against the real CStruct base
+            try:
+                import ast as _ast
+                base = importlib.import_module("comm.cstruct").CStruct
+                ns = {"CStruct": base, "re": re}
+                modnode = _ast.Module(body=[cls.node], type_ignores=[])
+                _ast.fix_missing_locations(modnode)
+                exec(compile(modnode, getattr(cls.module, "path", None) or "<cstruct>", "exec"), ns)
+                _native[key] = ns[cls.name]
+            except Exception as e2:      # noqa
+                raise Unsupported("cannot obtain the real class %s.%s: %s / %s" % (modname, cls.name, e, e2))
     return _native[key]
 
 
@@ -143,3 +154,42 @@ def opaque_attr(self, ip, st, v, name):
 
 
 LM.Lib.opaque_attr = opaque_attr
+
+
+# ------------------------------------------------------------------------- instances of classes with their own __init__
+from pyvc.values import Obj        # noqa: E402
+from pyvc.verify import native     # noqa: E402
+
+
+@native
+def struct_size(ip, st, x):
+    """get_bytelength() of the real class of the object / class x"""
+    cls = x.cls if isinstance(x, Obj) else x
+    K = native_class(cls, allow_own_init=True)
+    if K is None:
+        raise Unsupported("not a CStruct: %r" % (x,))
+    return K.get_bytelength(True)
+
+
+_prev_obj_attr = LM.Lib.obj_attr
+
+
+def obj_attr(self, ip, st, v, name):
+    if isinstance(v, Obj) and not name.startswith("_"):
+        K = native_class(v.cls, allow_own_init=True)
+        if K is not None:
+            f = st.fields(v)
+            if "_raw_value" in f:
+                for fname, off, n, code, typ in layout(K, True):
+                    if fname == name:
+                        if code != "s" or typ is not None:
+                            raise Unsupported("field %s of %s" % (name, K.__name__))
+                        val, base = f["_raw_value"], f["_offset"]
+                        if is_sym(val) or is_sym(base):
+                            lo = tm.Add(to_term(base), tm.Int(off))
+                            return iter([(st, as_value("bytes", tm.Extract(to_term(val), lo, tm.Int(n))))])
+                        return iter([(st, val[base + off:base + off + n])])
+    return _prev_obj_attr(self, ip, st, v, name)
+
+
+LM.Lib.obj_attr = obj_attr
